@@ -146,7 +146,7 @@ CLAIMS["C20"] = (CLAIMS["C20"][0], CLAIMS["C20"][1] + " BOUNDED addition: " + BC
 
 CLAIMS.update({
  "C24": ("proof",
-   "Deductive part (two arithmetic kernels only, nothing else of the property is proved): translate.go pow2(v), the capacity of the key index, is for every v <= 2^61 the least power of two >= max(v,2) and never reaches its panic; uVarintSize(x) is, for every uint64 x, exactly the number of bytes of the uvarint encoding of x (the least k in 1..10 with x < 2^(7k)); applyEntry and LogEntry.ReadFrom add it to the running offset that locates each key's length prefix in the translate log. The translate store itself (hash index, locking, restart, replication) is file/goroutine code outside the subset and is covered only by the bounded stand-in. rcheck/stores (BOUNDED, never counted as proved): the real TranslateFile over 5 namespaces with adversarial keys (empty, Unicode, invalid UTF-8, NUL, 4-70 KB, repeats within a batch, bursts that grow the hash table), forward/reverse translation, close+reopen, one real replica fed through a reader cut at and inside entry boundaries and resumed; against a map model: ids positive, stable, distinct per namespace, reverse returns the key, unchanged after reopen, replica identical. Sequential only (the property's concurrent clause is not exercised).",
+   "Deductive part (three arithmetic kernels only, nothing else of the property is proved): index.alloc gives the key table exactly `capacity` slots with mask == capacity-1 and a growth threshold <= capacity*loadFactor/100, strictly below the capacity for load factors under 100 (capacity <= 2^56); translate.go pow2(v), the capacity of the key index, is for every v <= 2^61 the least power of two >= max(v,2) and never reaches its panic; uVarintSize(x) is, for every uint64 x, exactly the number of bytes of the uvarint encoding of x (the least k in 1..10 with x < 2^(7k)); applyEntry and LogEntry.ReadFrom add it to the running offset that locates each key's length prefix in the translate log. The translate store itself (hash index, locking, restart, replication) is file/goroutine code outside the subset and is covered only by the bounded stand-in. rcheck/stores (BOUNDED, never counted as proved): the real TranslateFile over 5 namespaces with adversarial keys (empty, Unicode, invalid UTF-8, NUL, 4-70 KB, repeats within a batch, bursts that grow the hash table), forward/reverse translation, close+reopen, one real replica fed through a reader cut at and inside entry boundaries and resumed; against a map model: ids positive, stable, distinct per namespace, reverse returns the key, unchanged after reopen, replica identical. Sequential only (the property's concurrent clause is not exercised).",
    TRUST + "binary.PutUvarint itself is not under contract: the spec (least k with x < 2^(7k)) is its documented byte count.", "contract-based deductive verification: loop invariants, SMT + bounded stand-in"),
  "C26": ("exploration",
    "BOUNDED ONLY - the PEG parser is generated table code outside the subset. rcheck/pqlfmt: query text generated from the grammar together with the intended AST (all call forms, both quote styles with escapes and arbitrary Unicode, int64 extremes, floats, booleans, null, lists, conditions, timestamps): ParseString must return exactly that AST (Go types included); every parsed call is key-translated the way the executor does it, printed with String() and re-parsed: the result must mean the same.",
